@@ -54,13 +54,14 @@ func VerifC19Tokens() {
 	var times []int64
 	for i := 0; i < 3; i++ {
 		clk.now += steps[vChoose("step", 3)]
-		tok, err := w.Add(ctx, "payload-"+string(rune('a'+i)))
+		payload := "p" + vString("payload", 2) // two symbolic bytes
+		tok, err := w.Add(ctx, payload)
 		vAssert(err == nil, "append-succeeds")
 		k, perr := ksuid.Parse(tok)
 		vAssert(perr == nil, "token-is-a-ksuid")
 		vAssert(k.Time().Unix() == clk.now, "token-carries-the-time-of-its-own-append")
 		b, ok := wl.data[tok]
-		vAssert(ok && string(b) == "payload-"+string(rune('a'+i)), "entry-stored-under-its-token")
+		vAssert(ok && vStrEqual(string(b), payload), "entry-stored-under-its-token")
 		tokens = append(tokens, tok)
 		times = append(times, clk.now)
 	}
